@@ -12,6 +12,7 @@ CONSTANTS
   BadValues = TRUE
   ValuesPerOp = 2
   EditWhen = "always"
+  Extras = 0
   Deviations = {}
 VIEW vw
 INVARIANT Mutual
